@@ -5,6 +5,8 @@ V = os.path.dirname(os.path.dirname(os.path.abspath(__file__)))
 ALL = ["C%02d" % i for i in range(1, 20)]
 # property -> (families, level text, level note)
 CLAIMED = {
+ "C13": ("panic", "Generated-schedule search over 3-12 coroutines on small pools whose bodies take Mutex / RwLock sections and end in a value or in a panic outside any lock, while holding the Mutex, while holding the write guard, inside a scoped child or inside a select arm, with optional cancels and later coroutines spawned after the first wave; oracle = join() outcome equals the closure's ending (value, exact panic message, Cancel only for cancel targets), later coroutines and recycled stacks work (worker survived), lock released after the panic, poison flag set iff a panic - not a cancel - dropped a guard (never poisoned without a panic inside), exclusion and lost-update checks, scope / poll re-raise the child's payload.", "5/C13"),
+ "C15": ("local", "Generated-schedule search over coroutines run in joined waves on a pool of 1-2 stacks (recycling with generated histories: normal end, panic, cancelled while parked, expired park_timeout / Blocker park) plus threads, all using three coroutine_local! keys; oracle = per-actor model (every read returns the actor's own last write or the initial value), owner tag never foreign, value never used after its drop, initialiser count == number of (actor, key) pairs, drops == initialisations at quiescence (no leak, no double drop), the first blocking call of every fresh coroutine returns its model result (no stale Timeout/Canceled), a fresh coroutine is never cancelled.", "5/C15"),
  "C16": ("cqueue", "Generated-schedule search over cqueue scopes (1-4 arms with immediate / channel / sleep / semaphore top halves, 1-3 events, optional panics, feeders at generated times, 1-6 timed or untimed polls, Selector::remove) and the select! macro with nearly simultaneous arms; oracle = per poll the returned arm's bottom-half counter grew by exactly one and no other arm's did, event sequence numbers per arm in order without duplicates, bottom <= top <= bottom+1, Finished only when every arm has ended, Timeout only after d, no arm alive after the scope, arm panic re-raised in the poller, select! returns an arm with top and bottom run once and nothing executing or running later.", "5/C16"),
  "C14": ("scope", "Generated-schedule search over coroutine::scope (with nested scopes), join! inside a select arm that gets cancelled (safe code), and cqueue scopes with looping arms; faults: owner panics in the body, owner cancelled at a generated time, child panics; oracle = frame tombstone (no child step observes the borrowed frame dead), no child still running when the owner has ended, child panic reaches the owner, owner outcome consistent with the injected fault, no crash, no hang.", "5/C14"),
  "C01": ("spawn", "Generated-schedule search over spawn trees of up to 16 coroutines (spawned from the main thread, user threads and other coroutines, with builder options and small pools), bodies that yield/sleep/park/lock/spawn and end in a value or a panic, spawners that wait with join, wait(), is_done() polling or cancel; oracle = execution counter exactly 1, residency flag never found set (never on two OS threads at once), join() result equals the closure's outcome, completion never reported before the closure's last action, every join returns (exact deadlock detection).", "5/C01"),
